@@ -425,3 +425,8 @@ func (c *Chan[T]) CloseNow() {
 	c.closed = true
 	S.event(c.obj, "close", 0, true)
 }
+
+// RecvCase / SendCase build select cases (method form so that the element
+// type comes from the channel and the sent value is merely assignable to it).
+func (c *Chan[T]) RecvCase() *RecvCase[T]    { return &RecvCase[T]{ch: c} }
+func (c *Chan[T]) SendCase(v T) *SendCase[T] { return &SendCase[T]{ch: c, v: v} }
